@@ -186,7 +186,10 @@ func transientReturned(c *engine.Ctx, id, rel string) {
 					failed = true
 				}
 				if strings.HasPrefix(l.L, "errors.Is") && strings.HasSuffix(l.L, "("+errv+")") && l.R == "true" && l.Mask == 2 {
-					classified = true
+					cls := l.L[:strings.Index(l.L, "(")]
+					if toleratedClass(e.CalleeName, cls) {
+						classified = true
+					}
 				}
 			}
 			if !failed || classified {
@@ -206,4 +209,23 @@ func transientReturned(c *engine.Ctx, id, rel string) {
 		}
 	}
 	o.Done(1)
+}
+
+// toleratedClass is the frozen table of (callee, classifier) pairs whose failure a reconciler may
+// answer with success: the record is gone, exists already, or somebody else just wrote the very
+// record this pass wanted to write (so an event for that record is on its way). Everything else —
+// in particular a conflict on Configuration.Store.Update, whose competing writers' events map to
+// other proposals — must be returned so that the controller retries.
+func toleratedClass(callee, cls string) bool {
+	switch {
+	case strings.HasSuffix(callee, ".Store.Get") || strings.HasSuffix(callee, ".Store.GetByIndex"):
+		return cls == "errors.IsNotFound"
+	case strings.HasSuffix(callee, ".Store.UpdateStatus"):
+		return cls == "errors.IsNotFound" || cls == "errors.IsConflict"
+	case strings.HasSuffix(callee, ".Store.Create"):
+		return cls == "errors.IsAlreadyExists"
+	case strings.HasSuffix(callee, ".Store.Delete"):
+		return cls == "errors.IsNotFound"
+	}
+	return false
 }
